@@ -577,6 +577,8 @@ func scenTerm(out *scenOut, r *rng, thorough bool) {
 	for _, n := range []int{1, 2} {
 		readErrAfterExec(out, n)
 	}
+	quitBeforeRun(out, false)
+	quitBeforeRun(out, true)
 	for _, cause := range []string{"ctx", "quit-call", "kill"} {
 		termDuringStartup(out, cause, false)
 		termDuringStartup(out, cause, true)
@@ -725,6 +727,8 @@ func scenAPI(out *scenOut, r *rng, thorough bool) {
 		endedBeforeItBegan(out, how)
 	}
 	runAgain(out)
+	manyLateCalls(out, "kill")
+	manyLateCalls(out, "quit")
 	// "Before the program starts, Send blocks until it is running"
 	ctl := newRecCtl()
 	p := tea.NewProgram(recModel{c: ctl}, tea.WithInput(nil), tea.WithOutput(&safeBuffer{}), tea.WithoutSignalHandler())
@@ -1147,5 +1151,131 @@ func runAgain(out *scenOut) {
 	if len(stuck) > 0 {
 		out.fail(finding{Property: "C13", Class: "new", What: "API calls never return although Run has returned (Run called again on a finished Program)", Input: desc,
 			Expected: "every call returns once the program has ended", Observed: strings.Join(stuck, ",")})
+	}
+}
+
+// quitBeforeRun: Quit() (and Send) called before Run block until the program runs and then take
+// effect: Run returns nil.
+func quitBeforeRun(out *scenOut, pendingWork bool) {
+	ctl := newRecCtl()
+	never := make(chan struct{})
+	defer close(never)
+	opts := []tea.ProgramOption{tea.WithOutput(&safeBuffer{}), tea.WithoutSignalHandler()}
+	if pendingWork {
+		ctl.initCmd = func() tea.Msg { <-never; return nil }
+		opts = append(opts, tea.WithInput(&endlessReader{}))
+	} else {
+		opts = append(opts, tea.WithInput(nil))
+	}
+	p := tea.NewProgram(recModel{c: ctl}, opts...)
+	desc := fmt.Sprintf("Quit() called before Run (pending work: %t), then Run", pendingWork)
+	quitDone := make(chan struct{})
+	go func() { p.Quit(); close(quitDone) }()
+	time.Sleep(40 * time.Millisecond)
+	runDone := make(chan error, 1)
+	go func() { _, err := p.Run(); runDone <- err }()
+	out.record(fmt.Sprintf("quit-before-run/%t", pendingWork), desc)
+	select {
+	case err := <-runDone:
+		if got := errClass(err); got != "nil" {
+			out.fail(finding{Property: "C04", Class: "new", What: "wrong Run result", Input: desc, Expected: "nil", Observed: got})
+		}
+	case <-time.After(4 * time.Second):
+		out.fail(finding{Property: "C04", Class: "new", What: "Run does not return although Quit() was called (before Run)", Input: desc, Expected: "Run returns nil", Observed: "still running after 4s"})
+		p.Kill()
+		<-runDone
+	}
+	select {
+	case <-quitDone:
+	case <-time.After(2 * time.Second):
+		out.fail(finding{Property: "C13", Class: "new", What: "Quit() called before Run never returns although the program has ended", Input: desc})
+	}
+}
+
+// manyLateCalls: far more API calls than any queue inside the library could hold - 300 of each
+// kind after the program has ended, and 300 goroutines parked in Printf / Println / Send when it is
+// killed - all return.
+func manyLateCalls(out *scenOut, cause string) {
+	ctl := newRecCtl()
+	hold := make(chan struct{})
+	ctl.onUpdate = func(m tea.Msg, v int) tea.Cmd {
+		if u, ok := m.(userMsg); ok && u.Sender == 2 {
+			<-hold
+		}
+		return nil
+	}
+	run := startProgram(ctl, nil, tea.WithInput(nil), tea.WithoutSignalHandler())
+	desc := "300 goroutines parked in Printf / Println / Send while Update holds the loop, then " + cause + "; then 300 more calls of each kind, one after the other"
+	waitFor(2*time.Second, func() bool { return ctl.log.has("view-exit", "") })
+	go run.p.Send(userMsg{2, 0})
+	waitFor(2*time.Second, func() bool { return ctl.log.has("update-enter", "u2.0") })
+	var parked sync.WaitGroup
+	for i := 0; i < 300; i++ {
+		parked.Add(1)
+		go func(i int) {
+			defer parked.Done()
+			switch i % 3 {
+			case 0:
+				run.p.Printf("line %d", i)
+			case 1:
+				run.p.Println("line", i)
+			default:
+				run.p.Send(userMsg{3, i})
+			}
+		}(i)
+	}
+	time.Sleep(50 * time.Millisecond)
+	switch cause {
+	case "kill":
+		run.p.Kill()
+	default:
+		go run.p.Quit()
+	}
+	close(hold)
+	out.record("many-late-calls/"+cause, desc)
+	if !run.wait(5 * time.Second) {
+		out.fail(finding{Property: "C04", Class: "new", What: "Run does not return", Input: desc})
+		return
+	}
+	released := make(chan struct{})
+	go func() { parked.Wait(); close(released) }()
+	select {
+	case <-released:
+	case <-time.After(4 * time.Second):
+		out.fail(finding{Property: "C13", Class: "new", What: "callers parked in Printf / Println / Send when the program ended were not all released", Input: desc})
+		return
+	}
+	late := make(chan int, 1)
+	go func() {
+		n := 0
+		for i := 0; i < 300; i++ {
+			run.p.Printf("late %d", i)
+			n++
+			run.p.Println("late", i)
+			n++
+			run.p.Send(userMsg{3, i})
+			n++
+			run.p.Quit()
+			n++
+			late <- n
+			<-late
+		}
+		late <- -1
+	}()
+	deadline := time.After(5 * time.Second)
+	last := 0
+	for {
+		select {
+		case n := <-late:
+			if n == -1 {
+				return
+			}
+			last = n
+			late <- 0
+		case <-deadline:
+			out.fail(finding{Property: "C13", Class: "new", What: "an API call made after the program had ended never returned (many calls in a row)", Input: desc,
+				Expected: "1200 calls return", Observed: fmt.Sprintf("stuck after %d calls", last)})
+			return
+		}
 	}
 }
